@@ -312,22 +312,10 @@ def run(chk):
 def _check_run_cmd(prog, r2):
     hashc = prog.cls("HashClient")
     rc = prog.method(hashc, "_run_cmd")
-    src = rc.node
-    ga = [c for c in walk_no_nested(src) if isinstance(c, ast.Call) and call_name(c) == "getattr"]
-    routed = [n.targets[0].elts[0].id for n in walk_no_nested(src) if isinstance(n, ast.Assign) and isinstance(n.value, ast.Call) and call_name(n.value) == "self._get_client" and isinstance(n.targets[0], ast.Tuple) and isinstance(n.targets[0].elts[0], ast.Name)]
-    ok1 = len(ga) == 1 and len(ga[0].args) == 2 and isinstance(ga[0].args[0], ast.Name) and ga[0].args[0].id in routed and isinstance(ga[0].args[1], ast.Name) and ga[0].args[1].id == rc.pos_params()[0].name
-    r2.expect(ok1, "_run_cmd resolves the method by the command name on the routed client", "HashClient._run_cmd:getattr", "_run_cmd does not look the command up by name on the routed client", fn=rc, node=src)
-    srf = [c for c in walk_no_nested(src) if isinstance(c, ast.Call) and call_name(c) == "self._safely_run_func"]
-    ok2 = False
-    if len(srf) == 1:
-        c = srf[0]
-        star = [a for a in c.args if isinstance(a, ast.Starred)]
-        dstar = [k for k in c.keywords if k.arg is None]
-        ok2 = len(star) == 1 and len(dstar) == 1 and isinstance(getattr(c, "_parent", None), ast.Return)
-    r2.expect(ok2, "_run_cmd returns _safely_run_func(client, func, default, *args, **kwargs)", "HashClient._run_cmd:forwarding", "_run_cmd does not forward *args/**kwargs to _safely_run_func or does not return its result", fn=rc, node=src)
-    # key inserted in front
-    ins = [c for c in walk_no_nested(src) if isinstance(c, ast.Call) and isinstance(c.func, ast.Attribute) and c.func.attr == "insert" and len(c.args) == 2 and isinstance(c.args[0], ast.Constant) and c.args[0].value == 0]
-    r2.expect(len(ins) == 1, "_run_cmd puts the key first", "HashClient._run_cmd:key-position", "_run_cmd does not insert the key as first positional argument", fn=rc, node=src)
+    from .rules_C12 import run_cmd_problems
+
+    rcp = run_cmd_problems(prog)
+    r2.expect(not rcp, "_run_cmd hands (routed client, its method looked up by the command name, default, inner key, *args, **kwargs) to the safe runner and returns its result", "HashClient._run_cmd:forwarding", "_run_cmd: %s" % "; ".join(rcp), fn=rc, node=rc.node)
     sf = prog.method(hashc, "_safely_run_func")
     calls = [c for c in walk_no_nested(sf.node) if isinstance(c, ast.Call) and isinstance(c.func, ast.Name) and c.func.id == "func"]
     good = 0
